@@ -445,4 +445,107 @@ theorem hdr_set_ident_get (h : Bytes) (i v : Nat) (hi : i < h.length) :
 
 example : Hdr.e_machine .c64 .msb (Hdr.set_machine .c64 .msb (Hdr.create .c64 .msb 2) 0x1003E) = 0x3E#16 := by decide
 
+/-! ### 3. the stream: what `adjust_stream_size` + `write` leave in the file -/
+
+/-- **saveSection_writes** : on a stream that has not failed and has no byte budget,
+    `adjust_stream_size(off)` followed by `write(bs)` yields a stream (still good) whose content has
+    `bs` at `[off, off+len)`, has length `max(old length, off+len)`, and agrees with the old content on
+    every range below the old length that does not meet `[off, off+len)`; the bytes between the old
+    end and `off` are zero. -/
+theorem saveSection_writes (s : OStream) (hg : s.Good) (off : Nat) (bs : Bytes) :
+    let s' := (s.adjust (off : Int)).write bs
+    s'.Good ∧ slice s'.content off bs.length = bs ∧
+    s'.content.length = max s.content.length (off + bs.length) ∧
+    (∀ a n, a + n ≤ s.content.length → (a + n ≤ off ∨ off + bs.length ≤ a) →
+      slice s'.content a n = slice s.content a n) ∧
+    (∀ i, s.content.length ≤ i → i < off → s'.content[i]? = some 0) := by
+  obtain ⟨g, l, e⟩ := adjust_write_spec s hg off bs
+  refine ⟨g, adjust_write_slice s hg off bs, l, fun a n ha hd => adjust_write_frame s hg off bs a n ha hd,
+    fun i h1 h2 => ?_⟩
+  rw [e, if_neg (by omega), if_neg (by omega), if_pos h2]
+
+example : ((({ content := [1, 2, 3] } : OStream).adjust 5).write [9, 9]).content = [1, 2, 3, 0, 0, 9, 9] := by decide
+example : ((({ content := [1, 2, 3, 4] } : OStream).adjust 1).write [9, 9]).content = [1, 9, 9, 4] := by decide
+example : ({ content := [1, 2, 3] } : OStream).Good := ⟨rfl, rfl⟩
+
+/-! ### 4. the composition: what a successful `save` leaves in the stream -/
+
+/-- **C04's conclusion, taken as a hypothesis here**: the byte ranges `save` writes — ELF header,
+    every section header record, the data of every file-occupying non-empty section, every program
+    header record — are pairwise disjoint (`layout_disjoint` of C04), and no offset reaches 2^63
+    (`std::streamoff` is signed).  `h`, `secs`, `segs` are the header, sections and segments of the
+    *saved* object. -/
+structure LayoutOk (c : Cls) (enc : Enc) (h : Bytes) (secs : List SecBuf) (segs : List Seg) : Prop where
+  disjoint : (objWrites c enc h secs segs).Pairwise WDisj
+  shoffLt : (Hdr.e_shoff c enc h).toNat < 9223372036854775808
+  phoffLt : (Hdr.e_phoff c enc h).toNat < 9223372036854775808
+  offLt : ∀ b ∈ secs, b.offset.toNat < 9223372036854775808
+
+/-- **save_decodes** (all rungs at once — objects without segments, flat and nested segments —
+    because the layout fact the rungs differ in is the hypothesis `LayoutOk`): after a successful
+    `save` into a good stream, of an object without address translation, every positioned write of
+    the saved object is found in the stream: the ELF header at 0, the record of every section at
+    `e_shoff + index·e_shentsize`, the data of every file-occupying non-empty section at its offset,
+    the record of every segment at `e_phoff + index·e_phentsize`. -/
+theorem save_decodes {o : Obj} {os : OStream} {r : SaveRes} (hs : save o os = .ok r) (hok : r.ok = true)
+    (hg : os.Good) (htr : o.trans = []) {h : Bytes} (hh : r.obj.hdr = some h)
+    (hl : LayoutOk r.obj.cls r.obj.enc h r.obj.secs r.obj.segs) :
+    r.os.Good ∧ ∀ w ∈ objWrites r.obj.cls r.obj.enc h r.obj.secs r.obj.segs,
+      slice r.os.content w.1 w.2.length = w.2 := by
+  obtain ⟨hd, segs1, ordered, lay, done, _, _, _, _, _, rfl⟩ := save_ok_unfold hs hok
+  obtain ⟨_, eobj, eos, _⟩ := saveTail_ok hok
+  rw [eobj] at hh hl
+  simp only [Option.some.injEq] at hh
+  subst hh
+  rw [eobj, eos]
+  simp only at hl ⊢
+  rw [tailOs_eq o os _ segs1 lay done hg htr hl.shoffLt hl.phoffLt hl.offLt]
+  exact ⟨applyWrites_good _ _ hg, applyWrites_slices _ os hg hl.disjoint⟩
+
+/-- the ELF header is at the start of the file -/
+theorem save_decodes_header {o : Obj} {os : OStream} {r : SaveRes} (hs : save o os = .ok r) (hok : r.ok = true)
+    (hg : os.Good) (htr : o.trans = []) {h : Bytes} (hh : r.obj.hdr = some h)
+    (hl : LayoutOk r.obj.cls r.obj.enc h r.obj.secs r.obj.segs) :
+    slice r.os.content 0 h.length = h :=
+  (save_decodes hs hok hg htr hh hl).2 (0, h) List.mem_cons_self
+
+/-- the record of every section, and its data -/
+theorem save_decodes_section {o : Obj} {os : OStream} {r : SaveRes} (hs : save o os = .ok r) (hok : r.ok = true)
+    (hg : os.Good) (htr : o.trans = []) {h : Bytes} (hh : r.obj.hdr = some h)
+    (hl : LayoutOk r.obj.cls r.obj.enc h r.obj.secs r.obj.segs) {b : SecBuf} (hb : b ∈ r.obj.secs) :
+    slice r.os.content ((Hdr.e_shoff r.obj.cls r.obj.enc h).toNat +
+        (Hdr.e_shentsize r.obj.cls r.obj.enc h).toNat * b.index) (shdrSize r.obj.cls) =
+      encodeShdr r.obj.cls r.obj.enc b ∧
+    (b.stype ≠ BitVec.ofNat 32 SHT_NOBITS → b.stype ≠ BitVec.ofNat 32 SHT_NULL → b.size ≠ 0 →
+      ∀ d, b.data = some d → slice r.os.content b.offset.toNat (d.take b.size.toNat).length = d.take b.size.toNat) := by
+  have key := (save_decodes hs hok hg htr hh hl).2
+  have hmem : ∀ w ∈ secWrites r.obj.cls r.obj.enc (Hdr.e_shoff r.obj.cls r.obj.enc h)
+      (Hdr.e_shentsize r.obj.cls r.obj.enc h) b, w ∈ objWrites r.obj.cls r.obj.enc h r.obj.secs r.obj.segs := by
+    intro w hw
+    unfold objWrites
+    exact List.mem_cons_of_mem _ (List.mem_append_left _ (List.mem_flatMap.2 ⟨b, hb, hw⟩))
+  constructor
+  · have := key _ (hmem _ (by unfold secWrites; exact List.mem_cons_self))
+    simpa only [encodeShdr_length] using this
+  · intro h1 h2 h3 d hd
+    have hc : (b.stype != BitVec.ofNat 32 SHT_NOBITS && b.stype != BitVec.ofNat 32 SHT_NULL && b.size != 0 &&
+        b.data.isSome) = true := by
+      simp [h1, h2, hd]; exact h3
+    have := key (b.offset.toNat, (b.data.getD []).take b.size.toNat) (hmem _ (by
+      unfold secWrites; rw [if_pos hc]; exact List.mem_cons_of_mem _ List.mem_cons_self))
+    simpa only [hd, Option.getD_some] using this
+
+/-- the record of every segment -/
+theorem save_decodes_segment {o : Obj} {os : OStream} {r : SaveRes} (hs : save o os = .ok r) (hok : r.ok = true)
+    (hg : os.Good) (htr : o.trans = []) {h : Bytes} (hh : r.obj.hdr = some h)
+    (hl : LayoutOk r.obj.cls r.obj.enc h r.obj.secs r.obj.segs) {g : Seg} (hb : g ∈ r.obj.segs) :
+    slice r.os.content ((Hdr.e_phoff r.obj.cls r.obj.enc h).toNat +
+        (Hdr.e_phentsize r.obj.cls r.obj.enc h).toNat * g.index) (phdrSize r.obj.cls) =
+      encodePhdr r.obj.cls r.obj.enc g := by
+  have := (save_decodes hs hok hg htr hh hl).2 (segWrite r.obj.cls r.obj.enc (Hdr.e_phoff r.obj.cls r.obj.enc h)
+    (Hdr.e_phentsize r.obj.cls r.obj.enc h) g) (by
+      unfold objWrites
+      exact List.mem_cons_of_mem _ (List.mem_append_right _ (List.mem_map.2 ⟨g, hb, rfl⟩)))
+  simpa only [segWrite, encodePhdr_length] using this
+
 end ElfioVerif.C03
